@@ -149,9 +149,31 @@ Definition answered (t : list tev) (c : N) : bool :=
                       existsb (fun cp => (fst cp =? c) && match snd cp with PPubcomp id' => id' =? id | _ => false end) outs
                     | _ => true end) passed.
 
+(* C07: "none is returned without being acknowledged": a later ReadSlices call returns a message only
+   after the acknowledgement of the one returned before was written completely (the flush comes first
+   and fails the call otherwise) -- on the same connection or, after a reconnect, on the new one. *)
+Definition acked_by_call (t : list tev) (q id : N) (j : N) : bool :=
+  existsb (fun x => (snd x <=? j) && match snd (fst (fst x)) with
+                                     | PPuback id' => (q =? 1) && (id' =? id)
+                                     | PPubrec id' => (q =? 2) && (id' =? id)
+                                     | _ => false end) (out_packets t).
+Fixpoint acked_before_next (t : list tev) (rest : list tev) (owed : list (N * N)) : bool :=
+  match rest with
+  | [] => true
+  | TRet j OpRead (RetMsg topic msg) _ _ _ :: r =>
+    forallb (fun o => acked_by_call t (fst o) (snd o) j) owed &&
+    acked_before_next t r (match find_pub (upto_call j t) topic msg with
+                           | Some (q, Some id) => if q =? 0 then [] else [(q, id)]
+                           | _ => [] end)
+  | TRet j OpRead (RetBig _ _) _ _ _ :: r =>
+    forallb (fun o => acked_by_call t (fst o) (snd o) j) owed && acked_before_next t r []
+  | TRet _ (OpAdopt _ _) (RetAdopt _ 0) _ _ _ :: r => acked_before_next t r []
+  | _ :: r => acked_before_next t r owed
+  end.
+
 Definition c07_ok (h : histcase) : bool :=
   let t := trace_of h in
-  no_panic t && fold_trace (rx_step t) (mkRx [] [] false) [] t.
+  no_panic t && fold_trace (rx_step t) (mkRx [] [] false) [] t && acked_before_next t t [].
 Definition c04_ok (h : histcase) : bool :=
   let t := trace_of h in c07_ok h && forallb (answered t) (conns t).
 
